@@ -225,3 +225,78 @@ fn c17_classify_step_n2_thresholds() {
 fn c17_classify_step_n3() {
     classify_step::<3, false>();
 }
+
+/// Thorough: a 3-tick symbolic history from a FRESH filter (no memory), checked by monitors that look only at
+/// inputs and verdicts (not at the filter's memory): a delay verdict needs the signal on this tick and the
+/// previous one; a link is never weak while disconnected or under the floor; a LowShare verdict on a link that
+/// was not weak on the previous tick needs a share under the entering threshold, and a link that was weak and is
+/// not weak now (outside probation, which cannot start within 3 ticks) reached the leaving threshold.
+#[kani::proof]
+#[kani::unwind(6)]
+fn c17_history_3() {
+    const N: usize = 2;
+    const T: usize = 3;
+    let mut f = WeakLinkFilter::new();
+    let mut prev_signal: [bool; N] = [false; N];
+    let mut prev_weak: [bool; N] = [false; N];
+    let mut prev_judged: [bool; N] = [false; N]; // link was connected and judged (not bypassed) on the previous tick
+    let mut t = 0;
+    while t < T {
+        let bps: [u64; N] = core::array::from_fn(|_| grid_bps());
+        let rtt: [u16; N] = core::array::from_fn(|_| grid_rtt());
+        let connected: [bool; N] = core::array::from_fn(|_| kani::any());
+        let conns: [SrtlaConnection; N] = core::array::from_fn(|i| {
+            let mut c = SrtlaConnection::new_registering(i as u64 + 1, String::new(), std::net::IpAddr::V4(std::net::Ipv4Addr::LOCALHOST), 0);
+            c.connected = connected[i];
+            c.vh_bitrate_mut().current_bitrate_bps = bps[i] as f64;
+            c.rtt.kalman_rtt = srtla_core::kalman::KalmanFilter::vh_from_parts(rtt[i] as f64, 0.0, [0.0; 4], rtt[i] != 0);
+            c
+        });
+        let res = f.classify(&conns[..]);
+        let mut total: u64 = 0;
+        let mut n_conn: u64 = 0;
+        let mut i = 0;
+        while i < N {
+            if connected[i] {
+                total += bps[i];
+                n_conn += 1;
+            }
+            i += 1;
+        }
+        let bypass = total < 100_000 || n_conn == 0;
+        let mut i = 0;
+        while i < N {
+            let v = &res.per_link[i];
+            let judged = connected[i] && !bypass;
+            let signal = judged && rtt[i] as u32 > res.selected_delay_ms;
+            if !judged {
+                assert!(!v.weak, "never weak while disconnected or under the floor");
+            } else {
+                let share = bps[i] * 1000 / total;
+                if v.weak && v.reason == WeakReason::HighRtt {
+                    assert!(signal && prev_signal[i], "a delay verdict needs the signal on two consecutive ticks");
+                }
+                assert!(!(v.weak && v.reason == WeakReason::QueueBuilding), "no queue signal in this history");
+                let was = prev_judged[i] && prev_weak[i];
+                if v.weak && v.reason == WeakReason::LowShare {
+                    assert!(share < if was { 750 / n_conn } else { 250 / n_conn }, "LowShare respects the enter / leave thresholds");
+                }
+                if was && !v.weak {
+                    assert!(share >= 750 / n_conn, "leaving weak needs three quarters of fair share");
+                }
+            }
+            prev_signal[i] = signal;
+            prev_weak[i] = v.weak;
+            prev_judged[i] = judged;
+            i += 1;
+        }
+        if t == T - 1 {
+            kani::cover!(res.per_link[0].weak && res.per_link[0].reason == WeakReason::HighRtt, "delay verdict after a sustained signal");
+            kani::cover!(res.per_link[0].weak && res.per_link[0].reason == WeakReason::LowShare && prev_judged[0], "LowShare verdict");
+        }
+        core::mem::forget(conns);
+        core::mem::forget(res);
+        t += 1;
+    }
+    core::mem::forget(f);
+}
